@@ -31,10 +31,16 @@ func (c *Cov) op(w, k string) {
 	c.mu.Unlock()
 }
 
-func (c *Cov) dynDraw(sc *Scn, op Op, n int, sel bool, kids [][]int, cursor int) {
+func (c *Cov) dynDraw(sc *Scn, op Op, n int, sel bool, kids [][]int, cursor, before int, idle bool) {
 	c.mu.Lock()
 	defer c.mu.Unlock()
 	c.ops["dyn.draw"]++
+	if n > 0 && before >= n {
+		c.counts["dyn_draws_with_selected_index_beyond_the_items"]++
+	}
+	if idle {
+		c.counts["dyn_draws_directly_after_a_draw"]++
+	}
 	c.dynCfg[fmt.Sprintf("n%d gap%d H%d cur%v", n, sc.Gap, op.H, sc.Cursor)] = true
 	if sel {
 		c.counts["dyn_draws_after_selection_change"]++
@@ -147,6 +153,7 @@ func dynAlphabet(n, H int) []Op {
 	if n > 0 {
 		a = append(a, Op{K: "setcursor", A: 0}, Op{K: "setcursor", A: n - 1})
 	}
+	a = append(a, Op{K: "setcursorabs", A: n + 1}) // beyond the last item
 	return a
 }
 
@@ -252,16 +259,20 @@ func genDyn(rng *rand.Rand, thorough bool) []*Scn {
 				if big && rng.Intn(2) == 0 {
 					op.A = (rng.Intn(2)*2 - 1) * (20 + rng.Intn(100))
 				}
-			case x < 13 && n > 0:
+			case x < 13 && n > 0 && rng.Intn(4) > 0:
 				op = Op{K: "setcursor", A: rng.Intn(n)}
+			case x < 13:
+				op = Op{K: "setcursorabs", A: rng.Intn(n + 4)} // a quarter of the set-cursors: any index up to 3 beyond the end
 			case x < 14:
 				n = rng.Intn(9)
+				if big && rng.Intn(2) == 0 {
+					n = 5 + rng.Intn(15)
+				}
 				nh := make([]int, n)
 				for j := range nh {
 					nh[j] = 1 + rng.Intn(4)
 				}
 				op = Op{K: "replace", Hs: nh}
-				n = 0 // set-cursor targets are not generated after a replacement (the padded length is not known here)
 			case x < 15:
 				H = rng.Intn(7)
 				op = Op{K: "draw", W: rng.Intn(6), H: H}
@@ -517,6 +528,17 @@ func Fixed() []*Scn {
 		dyn([]int{9, 1}, 0, true, Op{K: "next"}, d(5, 3), Op{K: "prev"}, d(5, 3), Op{K: "wheeldown"}, d(5, 3), Op{K: "wheelup"}, d(5, 3)),
 		dyn(nil, 1, true, Op{K: "next"}, Op{K: "prev"}, Op{K: "wheeldown"}, d(5, 3), Op{K: "wheelup"}, Op{K: "pending", A: -4}, d(5, 0), d(0, 0)),
 		dyn([]int{2}, 1, true, Op{K: "next"}, d(5, 1), Op{K: "wheeldown"}, d(5, 1), Op{K: "wheelup"}, d(5, 1)),
+		// the selected item is removed by a replacement (hunter h19-1): the next draw selects an existing one,
+		// the draw after that shows it, and navigation works again
+		dyn([]int{1, 1, 1, 1, 1, 1, 1, 1, 1, 1}, 0, false, Op{K: "setcursor", A: 9}, d(5, 4), Op{K: "replace", Hs: []int{1, 1, 1}}, d(5, 4),
+			Op{K: "prev"}, Op{K: "next"}, d(5, 4)),
+		dyn([]int{1, 1, 1, 1, 1, 1, 1, 1, 1, 1}, 1, true, Op{K: "setcursor", A: 9}, d(5, 1), Op{K: "replace", Hs: []int{1, 1, 1}}, d(5, 1), d(5, 1),
+			Op{K: "replace", Hs: nil}, d(5, 1), Op{K: "replace", Hs: []int{2, 2}}, d(5, 1)),
+		// the same frame drawn again with a gap row on the first viewport row (h19-2)
+		dyn([]int{1, 1, 1, 1, 1, 1}, 1, false, d(5, 4), Op{K: "next"}, Op{K: "next"}, d(5, 4), d(5, 4), d(5, 4)),
+		// set-cursor beyond the last item (h19-3), also on an empty list
+		dyn([]int{1, 1, 1, 1, 1}, 0, true, Op{K: "setcursorabs", A: 100}, d(5, 3), d(5, 3), Op{K: "prev"}, d(5, 3)),
+		dyn(nil, 0, false, Op{K: "setcursorabs", A: 3}, d(5, 3), Op{K: "replace", Hs: []int{1, 1}}, d(5, 1), d(5, 1)),
 		// classic list: empty and nil item lists through every operation
 		lst(0, Op{K: "end"}, d(4, 2)),
 		lst(0, d(4, 0)),
